@@ -470,6 +470,44 @@ func (e *proxyEnv) rebuildPop(s *proxyShared, st *popState) string {
 
 func popKey(pop []int) string { return fmt.Sprint(pop) }
 
+// interleaveTools orders cases round-robin over the tools (a stable order that reaches every tool early; on a tree
+// where the client re-sends, every disturbed run costs the client's back-off sleep and the budget ends the part).
+func interleaveTools(groups ...[]mcpCase) []*mcpCase {
+	byTool := map[string][]*mcpCase{}
+	var tools []string
+	for _, g := range groups {
+		for i := range g {
+			t := g[i].Op.Tool
+			if _, ok := byTool[t]; !ok {
+				tools = append(tools, t)
+			}
+			byTool[t] = append(byTool[t], &g[i])
+		}
+	}
+	var out []*mcpCase
+	for k := 0; ; k++ {
+		any := false
+		for _, t := range tools {
+			if k < len(byTool[t]) {
+				out = append(out, byTool[t][k])
+				any = true
+			}
+		}
+		if !any {
+			return out
+		}
+	}
+}
+
+// deeper is a node of the behaviour tree whose run showed that the client made further requests: its continuations
+// are enumerated in the second pass.
+type deeper struct {
+	cs      *mcpCase
+	backend string
+	script  []beh
+	seen    int
+}
+
 func (e *proxyEnv) runPop(s *proxyShared, pop []int, c *proxyCounters) bool {
 	r := s.r
 	st := &popState{pop: pop}
@@ -486,78 +524,112 @@ func (e *proxyEnv) runPop(s *proxyShared, pop []int, c *proxyCounters) bool {
 	}
 	st.desc = popDesc(st.w, s.ks, pop)
 	allFaults := s.fullPops[popKey(pop)]
-	for _, group := range [][]mcpCase{s.filter, s.byN[len(pop)]} {
-		for i := range group {
-			cs := &group[i]
-			backends := proxyBackends[:1]
-			faults := allFaults && cs.Expect != mustReject || faultCase(cs)
-			if faults && len(pop) == 2 && cs.Label != "padded" && cs.Label != "duplicate" {
-				backends = proxyBackends // the MCP-side backend dimension: two-message populations, transport-crossed selectors
+	// run plays one script on a clean population: (verdict, case still clean, keep going at all)
+	run := func(cs *mcpCase, backend string, script []beh) (proxyVerdict, bool, bool) {
+		for try := 0; ; try++ {
+			if time.Now().After(s.deadline) {
+				s.budgetHit.Store(true)
+				return proxyVerdict{}, false, false
 			}
-			for _, backend := range backends {
-				// run one script on a clean population; false = stop exploring this case
-				run := func(script []beh) (proxyVerdict, bool, bool) {
-					for try := 0; ; try++ {
-						if st.dirty {
-							if why := e.rebuildPop(s, st); why != "" {
-								return proxyVerdict{}, false, failBuild(why)
-							}
-							c.rebuilds++
-						}
-						v, post, err := e.judge(st.w, cs, backend, script, st.pre)
-						if err != nil {
-							r.Infra("c14 mcp-proxy: population %v tool %s args %v transport %s: %v", st.desc, cs.Op.Tool, cs.Args, scriptName(script), err)
-							return v, false, false
-						}
-						st.pre, st.dirty = post, v.dirty
-						if strings.HasPrefix(v.what, "valid-call-refused:") && try < 2 && v.seen == 0 {
-							// nothing reached the front: a failed loopback dial on a loaded machine looks the same as a
-							// local refusal; a local refusal repeats, a failed dial does not
-							c.transient++
-							continue
-						}
-						e.count(s, cs, backend, script, v, c, st)
-						if v.what == "" {
-							return v, true, true
-						}
-						e.report(s, st, cs, backend, script, v, c)
-						return v, false, true
-					}
+			if st.dirty {
+				if why := e.rebuildPop(s, st); why != "" {
+					return proxyVerdict{}, false, failBuild(why)
 				}
-				var explore func(script []beh) (bool, bool)
-				explore = func(script []beh) (bool, bool) {
-					if time.Now().After(s.deadline) {
-						s.budgetHit.Store(true)
-						return false, false
-					}
-					v, ok, cont := run(script)
-					if !ok || !faults {
-						return ok, cont
-					}
-					if v.seen > 1 {
-						c.retried++
-					}
-					top := min(v.seen, proxyMaxDepth)
-					if v.seen > proxyMaxDepth {
-						c.depthCapped++
-					}
-					for pos := len(script); pos < top; pos++ {
-						prefix := append([]beh{}, script...)
-						for len(prefix) < pos {
-							prefix = append(prefix, bDeliver)
-						}
-						for b := beh(1); b < nBeh; b++ {
-							if ok, cont := explore(append(append([]beh{}, prefix...), b)); !ok {
-								return false, cont
-							}
-						}
-					}
-					return true, true
-				}
-				if _, cont := explore(nil); !cont {
+				c.rebuilds++
+			}
+			v, post, err := e.judge(st.w, cs, backend, script, st.pre)
+			if err != nil {
+				r.Infra("c14 mcp-proxy: population %v tool %s args %v transport %s: %v", st.desc, cs.Op.Tool, cs.Args, scriptName(script), err)
+				return v, false, false
+			}
+			st.pre, st.dirty = post, v.dirty
+			if strings.HasPrefix(v.what, "valid-call-refused:") && try < 2 && v.seen == 0 {
+				// nothing reached the front: a failed loopback dial on a loaded machine looks the same as a
+				// local refusal; a local refusal repeats, a failed dial does not
+				c.transient++
+				continue
+			}
+			e.count(s, cs, backend, script, v, c, st)
+			if v.seen > 1 {
+				c.retried++
+			}
+			if v.seen > proxyMaxDepth {
+				c.depthCapped++
+			}
+			if v.what == "" {
+				return v, true, true
+			}
+			e.report(s, st, cs, backend, script, v, c)
+			return v, false, true
+		}
+	}
+	// pass 1: every case with the undisturbed transport and, for the transport-crossed selectors, every behaviour
+	// for the first forwarded request
+	var later []deeper
+	for _, cs := range interleaveTools(s.filter, s.byN[len(pop)]) {
+		backends := proxyBackends[:1]
+		faults := allFaults && cs.Expect != mustReject || faultCase(cs)
+		if faults && len(pop) == 2 && cs.Label != "padded" && cs.Label != "duplicate" {
+			backends = proxyBackends // the MCP-side backend dimension: two-message populations, transport-crossed selectors
+		}
+	nextCase:
+		for _, backend := range backends {
+			v, ok, cont := run(cs, backend, nil)
+			if !cont {
+				return false
+			}
+			if !ok || !faults || v.seen == 0 {
+				continue
+			}
+			var mine []deeper
+			if v.seen > 1 {
+				mine = append(mine, deeper{cs, backend, []beh{bDeliver}, v.seen})
+			}
+			for b := beh(1); b < nBeh; b++ {
+				v, ok, cont := run(cs, backend, []beh{b})
+				if !cont {
 					return false
 				}
+				if !ok {
+					continue nextCase // a case that failed is not explored further
+				}
+				if v.seen > 1 {
+					mine = append(mine, deeper{cs, backend, []beh{b}, v.seen})
+				}
 			}
+			later = append(later, mine...)
+		}
+	}
+	// pass 2: the client went on after the first request: every behaviour at every further position it reached
+	var expand func(d deeper) (bool, bool)
+	expand = func(d deeper) (bool, bool) {
+		for pos := len(d.script); pos < min(d.seen, proxyMaxDepth); pos++ {
+			prefix := append([]beh{}, d.script...)
+			for len(prefix) < pos {
+				prefix = append(prefix, bDeliver)
+			}
+			for b := beh(1); b < nBeh; b++ {
+				script := append(append([]beh{}, prefix...), b)
+				v, ok, cont := run(d.cs, d.backend, script)
+				if !ok {
+					return false, cont
+				}
+				if ok, cont := expand(deeper{d.cs, d.backend, script, v.seen}); !ok {
+					return false, cont
+				}
+			}
+		}
+		return true, true
+	}
+	failed := map[*mcpCase]bool{}
+	for _, d := range later {
+		if failed[d.cs] {
+			continue
+		}
+		if ok, cont := expand(d); !cont {
+			return false
+		} else if !ok {
+			failed[d.cs] = true
 		}
 	}
 	return true
